@@ -35,28 +35,18 @@ def run(ctx, chk):
         chk.check(R1, wname.replace(" (&mut)", "").endswith("Builder::id"), "writer:" + wname,
                   "%s writes Builder.next_id (only Builder::id may)" % wname, spans[0], key="C13:next_id-writer:%s" % wname)
     chk.check(R1, any(w.replace(" (&mut)", "").endswith("Builder::id") for w in writers), "writer:Builder::id:exists", "Builder::id does not write next_id", raw.where("id", "Builder"))
-    # struct-literal initialisations of Builder (the only other way to set next_id)
-    ninit = 0
-    for f in ctx.rspirv.fns(BLD, "Builder"):
-        for n in walk(f["body"]):
-            if n[0] == "struct" and n[1].split("::")[-1] == "Builder":
-                ninit += 1
-                fld = dict((a, b) for a, b in n[2])
-                v = fld.get("next_id")
-                w = raw.where(f["name"], "Builder", "build/mod.rs")
-                if f["name"] == "new":
-                    chk.check(R1, int_of(v) == 1, "init:new", "Builder::new starts ids at %s" % show(v), w)
-                elif f["name"] == "new_from_module":
-                    src = None
-                    for s in f["body"][1]:
-                        if s[0] == "local" and s[1][0] == "p_ident" and s[1][1] == path_of(v):
-                            src = show(s[3])
-                    chk.check(R1, src is not None and ".header" in src and "h.bound" in src, "init:new_from_module",
-                              "continuation does not start at the header bound: %s" % src, w)
-                elif f["name"] == "default":
-                    chk.ok(R1, "init:default(derive)")
-                else:
-                    chk.bad(R1, "init:" + f["name"], "Builder constructed in %s with next_id = %s" % (f["name"], show(v)), w)
+    # constructions of a Builder value (the only other way to set next_id): census over the MIR aggregates, then evaluation
+    from . import headerx
+    makers = set()
+    for p, fn in mir.fns.items():
+        for b in fn["blocks"]:
+            for s_ in b["s"]:
+                if s_["f"] == "agg" and s_.get("adt", "").endswith("build::Builder"):
+                    makers.add(mir_name(p).split("::{closure")[0].split("::")[-1])
+    allowed = {"new", "new_from_module", "default"}
+    chk.check(R1, makers <= allowed and "new" in makers, "init:constructors", "Builder values are constructed in %s (allowed: new, new_from_module, default)" % sorted(makers),
+              raw.where("new", "Builder", "build/mod.rs"), key="C13:init:%s" % ",".join(sorted(makers - allowed)), sample=sorted(makers))
+    headerx.report(chk, R1, raw, headerx.builder_init_problems(ctx), keyp="C13:init")
     f = ctx.rspirv.fn(BLD, "id", "Builder")
     res = eval_counter(f)
     chk.check(R1, res == ("N", ("N", 1)), "id():read-then-increment",
@@ -66,10 +56,7 @@ def run(ctx, chk):
     good, why = module_bound_shape(f)
     chk.check(R1, good, "module():bound=next_id", "Builder::module does not store next_id as the header bound on both branches: %s" % why,
               raw.where("module", "Builder"))
-    hn = ctx.rspirv.fn("rspirv::dr::constructs", "new", "ModuleHeader", False)
-    hb = [n for n in walk(hn["body"]) if n[0] == "struct" and n[1].split("::")[-1] == "ModuleHeader"]
-    bound_ok = hb and path_of(dict((a, b) for a, b in hb[0][2]).get("bound")) == hn["sig"]["params"][0][0]
-    chk.check(R1, bool(bound_ok), "ModuleHeader::new:bound", "ModuleHeader::new does not store its argument as bound", raw.where("new", "ModuleHeader"))
+    headerx.report(chk, R1, raw, headerx.header_api_problems(ctx), only=["ModuleHeader::new"], keyp="C13")
 
     R2 = chk.rule("R-SRC", "in every instruction-emitting Builder method the result id is absent, the caller's explicit id, or the "
                   "value of self.id() (directly or via result_id.unwrap_or_else(|| self.id()) / match); never a literal or computed id")
